@@ -230,7 +230,11 @@ pub fn check(c: &Case) -> Outcome {
         // converse: a run whose last accepted step reached xend must not report a failure
         if let Some(&te) = log.ev_t.last() {
             let budget_hit = c.max_steps.map(|m| sol.nstep + 1 >= m).unwrap_or(false);
-            if (te - xend).abs() <= tslack(te) && !budget_hit {
+            // exact arrival always counts; arrival "to rounding" only when the interval is long compared with the
+            // solvers' step resolution 10*uround*|x| (on an interval of a dozen ulps a last sample one ulp short with
+            // StepSizeTooSmall is an honest answer: the remaining distance is below every admissible step)
+            let resolved = len >= 2000.0 * ulp(x0.abs().max(xend.abs()));
+            if (te == xend || (resolved && (te - xend).abs() <= tslack(te))) && !budget_hit {
                 return Outcome::viol(format!(
                     "{}: the last accepted step ended at xend (|diff|={:e}) yet the status is a failure (first_step={:?}, max_step={:?}, nstep={})",
                     desc, (te - xend).abs(), first_step, max_step, sol.nstep
@@ -293,7 +297,7 @@ pub fn strategy() -> BoxedStrategy<Case> {
     ];
     let finite = (
         benign_spec(4),
-        span_wide(-14.5, 6.0),
+        prop_oneof![14 => span_wide(-14.5, 6.0).boxed(), 1 => span_offset().boxed()],
         any_method(),
         tols(4, 3.0, 8.0),
         opt_first.clone(),
@@ -311,6 +315,7 @@ pub fn strategy() -> BoxedStrategy<Case> {
         .prop_map(|(prob, span, method, (rtol, atol), first_step, max_step, t_eval, dense, mut events, max_steps, fault)| {
             let n: usize = prob.blocks.iter().map(|b| b.dim()).sum();
             fix_events(&mut events, n);
+            let method = if method == Meth::RK4 && !rk4_can_step(&span) { Meth::RK23 } else { method };
             // RK4: first_step is the fixed step; keep the number of steps bounded
             let first_step = match (method, first_step) {
                 (Meth::RK4, Some(f)) if f.abs() < 2e-3 => Some(f.signum() * 2e-3),
